@@ -59,6 +59,29 @@ def _snapshot_of(e, what):
     return False
 
 
+def _draws(fn):
+    """Sites of ``fn`` that take the next task from the persistent round-robin iterator: [(kind, node, element variable, iterator spelling)]
+    for ``for x in self._metarator`` ("for", the For node) and ``x = next(it)`` ("next", the assignment) with ``it`` = self._metarator or a
+    local bound to it (also when co-assigned with it on renewal)."""
+    if isinstance(fn, ast.Lambda) or not hasattr(fn, "body"):
+        return []
+    aliases = {"self._metarator"}
+    for st in body_walk(fn):
+        pairs = assign_pairs(st)
+        for t, v in pairs:
+            if isinstance(t, ast.Name) and (src(v) == "self._metarator" or any(self_attr(t2, "_metarator") and v2 is v for t2, v2 in pairs)):
+                aliases.add(t.id)
+    out = []
+    for n in body_walk(fn):
+        if isinstance(n, ast.For) and src(n.iter) in aliases and isinstance(n.target, ast.Name):
+            out.append(("for", n, n.target.id, src(n.iter)))
+        elif isinstance(n, (ast.Assign, ast.AnnAssign)):
+            for t, v in assign_pairs(n):
+                if isinstance(t, ast.Name) and isinstance(v, ast.Call) and dotted(v.func) == "next" and len(v.args) == 1 and src(v.args[0]) in aliases:
+                    out.append(("next", n, t.id, src(v.args[0])))
+    return out
+
+
 def _state_none_guard(g, n, recv):
     return guarded_none(g, n, f"{recv}._completionState")
 
@@ -275,7 +298,9 @@ def check(ctx):
                         okr = src(r) == f"{recv}._iterator" and handler is not None and handler.type is not None and dotted(handler.type) == "StopIteration"
                     elif s == "TaskFailed":
                         in_handler = handler is not None and not (handler.type is not None and dotted(handler.type) == "StopIteration")
-                        okr = (in_handler and src(r) == "Failure()") or (isinstance(r, ast.Name) and not isinstance(fn, ast.Lambda) and fn.args.args and r.id == fn.args.args[0].arg and nest_depth >= 1)
+                        fparams = [] if isinstance(fn, ast.Lambda) else [a.arg for a in fn.args.args if a.arg != "self"]
+                        # the failure handed to an errback: a nested closure's first parameter, or a bound method's first parameter after self
+                        okr = (in_handler and src(r) == "Failure()") or (isinstance(r, ast.Name) and bool(fparams) and r.id == fparams[0])
                     else:
                         okr = src(r) == f"Failure({s}())"
                     ctx.check(okr, "complete/state-result-table", key, f"completion state {s} is paired with the wrong result {src(r)} "
@@ -395,6 +420,8 @@ def check(ctx):
                         return list(ast.walk(e.body))
                     if isinstance(e, ast.Name) and e.id in nd:
                         return list(body_walk(nd[e.id]))
+                    if self_attr(e) and e.attr in methods(task) and e.attr not in ("resume",):
+                        return list(body_walk(methods(task)[e.attr]))      # a bound method registered as the callback
                     if self_attr(e):
                         return [e]
                     return []
@@ -422,10 +449,11 @@ def check(ctx):
                         if isinstance(p, ast.For) and isinstance(p.target, ast.Name) and p.target.id == src(c.func.value):
                             loop = p
                             break
-                    walkers_ = [nm for nm, fx in methods(coop).items() if any(isinstance(x, ast.For) and src(x.iter) == "self._metarator" for x in body_walk(fx))]
+                    walkers_ = [nm for nm, fx in methods(coop).items() if _draws(fx)]
                     gens_ = [nm for nm in walkers_ if any(isinstance(x, ast.Yield) for x in body_walk(methods(coop)[nm]))]
-                    ok_site = loop is not None and qn == "Cooperator._tick" and (
-                        (src(loop.iter) == "self._metarator" and "_tick" in walkers_) or any(src(loop.iter) == f"self.{nm}()" for nm in gens_))
+                    drawn_here = {d[2] for d in _draws(fn)} if qn == "Cooperator._tick" else set()
+                    ok_site = qn == "Cooperator._tick" and ((src(c.func.value) in drawn_here) or
+                                                            (loop is not None and any(src(loop.iter) == f"self.{nm}()" for nm in gens_)))
                     ctx.check(ok_site, "advance/only-runnable", key,
                               "a task is advanced outside the tick's walk over the runnable set (it may be paused, finished or waiting)")
                 if call_attr(c) == "_addTask":
@@ -524,48 +552,64 @@ def check(ctx):
 
     # ---- round robin --------------------
     with section(ctx, 'round robin'):
-        # the walk over the runnable set lives in whichever Cooperator method iterates self._metarator: the generator
-        # _tasksWhileNotStopped (consumed by _tick) or _tick itself; "advancing" a task is `yield t` there, or t._oneWorkUnit()
-        walkers = [(nm, fx) for nm, fx in methods(coop).items() if any(isinstance(x, ast.For) and src(x.iter) == "self._metarator" for x in body_walk(fx))]
+        # The walk over the runnable set lives in whichever Cooperator method draws tasks from the persistent iterator self._metarator: by
+        # `for t in self._metarator` or by explicit `t = next(it)` / `except StopIteration` where `it` aliases self._metarator.  It is the
+        # generator _tasksWhileNotStopped (consumed by _tick) or _tick itself; "advancing" a task is `yield t` there, or t._oneWorkUnit().
+        walkers = [(nm, fx) for nm, fx in methods(coop).items() if _draws(fx)]
         ctx.check(len(walkers) == 1, "fair/round-robin-iterator", f"{QC} | <walk over the runnable set>",
                   "the walk over the runnable set no longer consumes the persistent iterator self._metarator "
                   "(restarting from the head each tick starves the tasks at the tail whenever the predicate ends the tick early)")
-        walk_name = walkers[0][0] if walkers else None
         for walk_name, f in walkers[:1]:
             ctx.functions.add(f"{TASK}:Cooperator.{walk_name}")
             g = ctx.cfg(f)
             q = f"{QC}.{walk_name}"
-            heads = g.ids(lambda n: n.kind == "for" and src(n.ast.iter) == "self._metarator")
-            ctx.check(len(heads) == 1, "fair/round-robin-iterator", q, "several loops consume the round-robin iterator")
+            draws = _draws(f)
+            ctx.check(len(draws) == 1, "fair/round-robin-iterator", q, "several sites consume the round-robin iterator")
+            kind, dnode, loopvar, alias = draws[0]
+            if kind == "for":
+                heads = g.ids(lambda n: n.kind == "for" and n.ast is dnode)
+                drawn = [d for h in heads for d, l in g.succ[h] if l == "iter"]            # first node that has the element
+                exhausted = [(h, "done") for h in heads]
+            else:
+                heads = g.ids_of(dnode)
+                drawn = [d for h in heads for d, l in g.succ[h] if l not in ("exc", "raise")]
+                exhausted = [(d, None) for h in heads for d, l in g.succ[h] if l == "exc" and g.node(d).kind == "handler"
+                             and g.node(d).ast.type is not None and dotted(g.node(d).ast.type) == "StopIteration"]
+                ctx.check(bool(exhausted), "fair/round-robin-iterator", q + " | <exhaustion>", "next() on the round-robin iterator is not covered by `except StopIteration`")
             renew = g.ids(lambda n: n.kind == "stmt" and any(self_attr(t, "_metarator") for t, v in assign_pairs(n.ast)))
             for n in renew:
                 key = ctx.construct(q, "<renew the round-robin iterator>")
-                v = next(v for t, v in assign_pairs(g.node(n).ast) if self_attr(t, "_metarator"))
+                pairs = assign_pairs(g.node(n).ast)
+                v = next(v for t, v in pairs if self_attr(t, "_metarator"))
                 ctx.check(isinstance(v, ast.Call) and dotted(v.func) == "iter" and len(v.args) == 1 and src(v.args[0]) == "self._tasks", "fair/round-robin-iterator", key,
                           "the round-robin iterator is not built over the live runnable list (paused/finished tasks would be advanced, new ones missed)")
-                preds = [(s_, l) for s_, l in g.pred[n] if l != "exc"]
-                ok = bool(heads) and bool(preds) and all(s_ in heads and l == "done" for s_, l in preds)
+                if kind == "for":
+                    preds = [(s_, l) for s_, l in g.pred[n] if l != "exc"]
+                    ok = bool(heads) and bool(preds) and all((s_, l) in exhausted for s_, l in preds)
+                else:
+                    hn = [d for d, _ in exhausted]
+                    ok = bool(hn) and g.must_precede(hn, [n]) is None and g.path(drawn, [n], avoid=set(hn)) is None
+                    # the local the draws go through must follow the renewed iterator
+                    ok = ok and (alias == "self._metarator" or any(isinstance(t, ast.Name) and t.id == alias and v2 is v for t, v2 in pairs))
                 ctx.check(ok, "fair/renew-only-when-exhausted", key,
-                          "the round-robin iterator is renewed before the previous round is exhausted: tasks late in the list are starved when ticks end early")
+                          "the round-robin iterator is renewed before the previous round is exhausted (or the walk keeps drawing from the old one): tasks late in the "
+                          "list are starved when ticks end early")
             ctx.check(bool(renew), "fair/renew-only-when-exhausted", q + " | <renew>", "the round-robin iterator is never renewed: after one round no task is advanced")
             for other in [a for a in class_accesses(mod, coop, {"_metarator"}, receivers={"self"}) if a.func not in ("Cooperator.__init__", f"Cooperator.{walk_name}")]:
                 ctx.violation("fair/renew-only-when-exhausted", ctx.construct(f"twisted.internet.task.{other.func}", other.node), "the round-robin iterator is reset outside the walk")
             preds_ = {t.id for st in body_walk(f) for t, v in assign_pairs(st) if isinstance(t, ast.Name) and isinstance(v, ast.Call) and "_terminationPredicateFactory" in src(v.func)}
             tterm = [t for t in g.ids(lambda n: n.kind == "test" and isinstance(n.ast, ast.Call) and (isinstance(n.ast.func, ast.Name) and (n.ast.func.id in preds_ or not preds_)))]
-            for h in heads:
-                loopvar = src(g.node(h).ast.target)
-                adv = gfind(g, lambda x: (isinstance(x, ast.Yield) and x.value is not None and src(x.value) == loopvar) or
-                            (isinstance(x, ast.Call) and call_attr(x) == "_oneWorkUnit" and src(x.func.value) == loopvar))
-                bad_y = gfind(g, lambda x: isinstance(x, ast.Yield) and (x.value is None or src(x.value) != loopvar))
-                ctx.check(bool(adv) and not bad_y, "fair/yields-runnable", q, "the walk does not advance / yield the task taken from the round-robin iterator")
-                it = [d for d, l in g.succ[h] if l == "iter"]
-                it0 = [n for n in it if n not in adv]
-                w = g.path(it0, tterm, avoid=set(adv) | {h}) if tterm and it0 else None
-                ctx.check(w is None, "fair/progress-before-predicate", q + " | <termination predicate>",
-                          "the termination predicate is consulted before a task has been advanced in this round: with a predicate that is already true "
-                          "(a tick started late) no task ever makes progress", witness=g.describe(w))
-                w = must_pass(g, it, adv, to=[h, g.exit], exc=False)
-                ctx.check(w is None, "fair/yields-runnable", q + " | <every element>", "a task taken from the iterator can be skipped without being advanced", witness=g.describe(w))
+            adv = gfind(g, lambda x: (isinstance(x, ast.Yield) and x.value is not None and src(x.value) == loopvar) or
+                        (isinstance(x, ast.Call) and call_attr(x) == "_oneWorkUnit" and src(x.func.value) == loopvar))
+            bad_y = gfind(g, lambda x: isinstance(x, ast.Yield) and (x.value is None or src(x.value) != loopvar))
+            ctx.check(bool(adv) and not bad_y, "fair/yields-runnable", q, "the walk does not advance / yield the task taken from the round-robin iterator")
+            it0 = [n for n in drawn if n not in adv]
+            w = g.path(it0, tterm, avoid=set(adv) | set(heads)) if tterm and it0 else None
+            ctx.check(w is None, "fair/progress-before-predicate", q + " | <termination predicate>",
+                      "the termination predicate is consulted before a task has been advanced in this round: with a predicate that is already true "
+                      "(a tick started late) no task ever makes progress", witness=g.describe(w))
+            w = must_pass(g, drawn, adv, to=list(heads) + [g.exit], exc=False)
+            ctx.check(w is None, "fair/yields-runnable", q + " | <every element>", "a task taken from the iterator can be skipped without being advanced", witness=g.describe(w))
             wl = g.ids(lambda n: n.kind == "test" and src(n.ast) == "self._tasks")
             ctx.check(bool(wl), "fair/stops-when-empty", q, "the walk does not terminate when the runnable set is empty (busy loop) or never starts")
 
@@ -805,4 +849,18 @@ SILENT = [
                  (TASK, "    def _removeTask(self, task: CooperativeTask) -> None:\n", "    def _rejectStopped(self, task: CooperativeTask) -> None:\n        reason = SchedulerStopped()\n        task._completeWith(reason, Failure(SchedulerStopped()))\n\n    def _removeTask(self, task: CooperativeTask) -> None:\n"),
                  (TASK, "        if not self._tasks and self._delayedCall:\n            self._delayedCall.cancel()\n            self._delayedCall = None\n",
                   "        if self._tasks:\n            return\n        pending = self._delayedCall\n        if pending:\n            pending.cancel()\n            self._delayedCall = None\n")]),
+
+    # --- second round of independent refactors: a private property standing for a test, callbacks as bound methods, explicit next() driving
+    Silent("finished-property-and-bound-method-callbacks", TASK, "                self.pause()\n\n" + _FAILLATER + "\n" + _REGISTER,
+           "                self.pause()\n                result.addCallbacks(self._resumeAfterWait, self._failAfterWait)\n",
+           more=[(TASK, "    def _oneWorkUnit(self) -> None:\n",
+                  "    @property\n    def _isOver(self) -> bool:\n        return self._completionState is not None\n\n    def _resumeAfterWait(self, value: object) -> None:\n        self.resume()\n\n"
+                  "    def _failAfterWait(self, reason: Failure) -> Optional[Failure]:\n        if self._isOver:\n            return reason\n        self._completeWith(TaskFailed(), reason)\n        return None\n\n"
+                  "    def _oneWorkUnit(self) -> None:\n"),
+                 (TASK, "        if self._pauseCount == 0 and self._completionState is None:\n", "        if self._pauseCount == 0 and not self._isOver:\n"),
+                 (TASK, "        if self._completionState is not None:\n            raise self._completionState\n", "        if self._isOver:\n            raise self._completionState\n")]),
+    Silent("walk-driven-by-explicit-next", TASK,
+           "        while self._tasks:\n            for t in self._metarator:\n                yield t\n                if terminator():\n                    return\n            self._metarator = iter(self._tasks)\n",
+           "        turn = self._metarator\n        while self._tasks:\n            try:\n                candidate = next(turn)\n            except StopIteration:\n"
+           "                self._metarator = turn = iter(self._tasks)\n                continue\n            yield candidate\n            if terminator():\n                return\n"),
 ]
